@@ -460,12 +460,9 @@ bool encode_array::prepare(size_t len)
 	if (_enc) {
 		return false;
 	}
+	/* space behind existing data, content is kept */
 	size_t old = _d.length();
-	if (!_d.set(old + len)) {
-		return false;
-	}
-	_d.set(old);
-	return true;
+	return mpt_array_reserve(&_d, old + len, 0) != 0;
 }
 span<const uint8_t> encode_array::data() const
 {
